@@ -5,7 +5,7 @@ from __future__ import annotations
 from mdibgen import TX_OF_TYPE, Tables
 
 KIND = {'metric': 0, 'metric_str': 0, 'alert': 1, 'comp': 2, 'op': 3, 'rt': 4, 'ctx': 5}
-TXK = {'metric': 0, 'alert': 1, 'comp': 2, 'op': 3, 'rt': 4}
+TXK = {'metric': 0, 'alert': 1, 'comp': 2, 'op': 3, 'rt': 4, 'ctx': 5}
 ASSOC = {None: 0, 'No': 0, 'Pre': 1, 'Assoc': 2, 'Dis': 3}
 CODE = {'ok': 0, 'KeyError': 1, 'ValueError': 2, 'ApiUsageError': 3, 'Abort': 4}
 
@@ -98,9 +98,23 @@ class Translator:
 
             acts = []
             k = 6
-            if op['k'] == 'state':
+            # an application exception after i body statements: exactly the first i statements are executed.  One
+            # statement can be several model actions, so the executed prefix is translated and the model aborts
+            # after all of it.
+            ab = op.get('abort_at')
+            entity = op.get('iface') == 'entity'
+            if op['k'] == 'read':
+                k = 0          # entities.by_handle outside any transaction: nothing happens
+            elif op['k'] == 'state':
                 k = TXK[op['tx']]
-                for h, _n in op['items']:
+                seen = set()
+                for h, _n, *_slot in (op['items'] if ab is None else op['items'][:ab]):
+                    if entity and h in seen:
+                        # StateTransactionBase.write_entity does not refuse a second write of the same handle (unlike
+                        # get_state): it replaces the first, version = current + 1, the last content wins - and the
+                        # content used here is the observed one
+                        continue
+                    seen.add(h)
                     acts.append(f'AState {self.it.h(h)} {pay("states", h, 4)}')
             elif op['k'] == 'location':
                 k = 5
@@ -110,9 +124,15 @@ class Translator:
                 acts.append(f'ACtxMk {self.it.h(dh)} {self.it.h(gen) if gen else 0} false true {pay("cstates", gen, 7)}')
             elif op['k'] == 'ctx':
                 k = 5
-                for a in op['actions']:
+                todo = op['actions'] if ab is None else op['actions'][:ab]
+                if entity:
+                    # ContextStateTransaction.write_entity replaces an earlier write of the same state handle in the
+                    # same transaction (the classic getters refuse it): the last one counts
+                    key = [a[2] if a[0] == 'mk' else a[1] if a[0] in ('get', 'delstate') else None for a in todo]
+                    todo = [a for i, a in enumerate(todo) if key[i] is None or key[i] not in key[i + 1:]]
+                for a in todo:
                     if a[0] == 'mk':
-                        _, dh, handle, assoc, _n = a
+                        _, dh, handle, assoc, _n, *_slot = a
                         hh = handle
                         if hh is None:
                             hh = next((h for h in created_c if h.startswith('gen')), None)
@@ -120,7 +140,7 @@ class Translator:
                         acts.append(f'ACtxMk {self.it.h(dh)} {hid} {"true" if handle is not None else "false"} '
                                     f'{"true" if assoc else "false"} {pay("cstates", hh, 7)}')
                     elif a[0] == 'get':
-                        _, handle, _n, assoc = a
+                        _, handle, _n, assoc, *_slot = a
                         av = 'None' if assoc is None else ('(Some 2)' if assoc else '(Some 3)')
                         acts.append(f'ACtxGet {self.it.h(handle)} {pay("cstates", handle, 7)} {av}')
                     elif a[0] == 'disall':
@@ -129,24 +149,35 @@ class Translator:
                         acts.append(f'ACtxDel {self.it.h(a[1])}')
             elif op['k'] == 'descr':
                 k = 6
-                for a in op['actions']:
+                for a in (op['actions'] if ab is None else op['actions'][:ab]):
                     if a[0] == 'add':
-                        _, h, parent, tname, _n, _ws = a
+                        _, h, parent, tname, _n, _ws, *_slot = a
                         kk = TXK[TX_OF_TYPE[tname]]
                         self.kind_of.setdefault(h, kk)
                         acts.append(f'ADAdd {self.it.h(h)} {oz(self.it.h(parent))} {kk} {pay("descrs", h, 4)} {pay("states", h, 4)}')
                     elif a[0] in ('upd', 'updsrc'):
                         acts.append(f'ADUpd {self.it.h(a[1])} {pay("descrs", a[1], 4)}')
+                        cur = tb.t['descrs'].get(str(a[1]))
+                        if a[0] == 'upd' and op.get('iface') == 'entity' and cur is not None:
+                            # write_entity also writes the state(s) of the entity
+                            if cur[2].endswith('ContextDescriptor'):
+                                for ch, x in tb.t['cstates'].items():
+                                    if str(x[1]) == str(a[1]):
+                                        acts.append(f'ACtxGet {self.it.h(ch)} {pay("cstates", ch, 7)} None')
+                            elif len(a) > 3:       # a stale entity: the state content is the one read earlier
+                                acts.append(f'ADState {self.it.h(a[1])} {pay("states", a[1], 4)}')
                     elif a[0] == 'del':
                         acts.append(f'ADDel {self.it.h(a[1])}')
                     elif a[0] == 'state':
                         acts.append(f'ADState {self.it.h(a[1])} {pay("states", a[1], 4)}')
-            ab = '(@None nat)' if op.get('abort_at') is None else f'(Some {op["abort_at"]}%nat)'
+            ab = '(@None nat)' if ab is None else f'(Some {len(acts)}%nat)'
             hist.append(f'({k}, {ab}, [{"; ".join(acts)}])')
             exp.append((CODE.get(st['res'].split(':')[0], 9), d['ver'],
                         [(self.it.h(x[0]), self.enc_d(x)) for x in d['descrs']['set']] + [(self.it.h(h), []) for h in d['descrs']['del']],
                         [(self.it.h(x[0]), self.enc_s(x)) for x in d['states']['set']] + [(self.it.h(h), []) for h in d['states']['del']],
-                        [(self.it.h(x[0]), self.enc_c(x)) for x in d['cstates']['set']] + [(self.it.h(h), []) for h in d['cstates']['del']]))
+                        [(self.it.h(x[0]), self.enc_c(x)) for x in d['cstates']['set']] + [(self.it.h(h), []) for h in d['cstates']['del']])
+                       + tuple([(self.it.h(e[0]), [e[1]]) for e in d.get('saved', {}).get(k_, [])] +
+                               [(self.it.h(h), []) for h in d.get('saved_del', {}).get(k_, [])] for k_ in ('d', 's', 'c')))
             tb.apply(d)
         self.kind_of = base_kinds
         universe = sorted(self.it.handles.values())
@@ -156,7 +187,7 @@ class Translator:
             lst = sorted(lst, key=lambda e: e[0])
             return '[' + '; '.join(f'({h}, [{"; ".join(str(v) for v in enc)}])' for h, enc in lst) + ']'
 
-        explit = '([' + '; '.join(f'({c}, {v}, {dl(a)}, {dl(b)}, {dl(cc)})' for c, v, a, b, cc in exp) + '] : list obs)'
+        explit = '([' + '; '.join(f'({c}, {v}, ' + ', '.join(dl(x) for x in rest) + ')' for c, v, *rest in exp) + '] : list obs)'
         return name, ulit, '([' + '; '.join(hist) + '] : list (Z * option nat * list action))', explit
 
 
@@ -193,7 +224,7 @@ class ConsumerTranslator(Translator):
                 ds = '; '.join(f'({self.it.h(x[0])}, mkDescr {oz(self.it.h(x[1]))} {self.kind(x[0], x[2])} {x[3]} {self.it.p(x[4])})'
                                for x in p['descrs'])
                 ss = '; '.join(self.st(x) for x in p['states'] if len(x) == 5)
-                cs = '; '.join(self.cst(x) for x in p['states'] if len(x) == 8)
+                cs = '; '.join(self.cst(x) for x in p['states'] if len(x) >= 8)
                 parts.append(f'mkDPart {MOD[p["mod"]]} [{ds}] [{ss}] [{cs}]')
             return f'RDescr {vg} [{"; ".join(parts)}]'
         items = [x for p in r['parts'] for x in p['states']]
